@@ -20,7 +20,7 @@ ViewOf(u) == CASE u = "view_settings" -> "settings" [] u = "view_settings_by_ind
                [] u = "view_raw" -> "raw" [] u = "view_raw_by_index" -> "raw_by_index" [] OTHER -> "settings"
 \* what a use returns, as a function of what it can observe of the configuration
 ResultOf(u, o, s) == CASE u \in {"profile"} -> <<"profile", o.recover, o.request, o.postreq>>
-                    [] u \in {"decoder_rsa", "decoder_aes", "decoder_rand", "client"} -> <<"decoder", o.recover + 1, o.request, o.postreq>>
+                    [] u \in {"decoder_rsa", "decoder_aes", "decoder_rand", "client", "client_options"} -> <<"decoder", o.recover + 1, o.request, o.postreq>>
                     [] u \in {"transform_get", "transform_post"} -> <<"traffic", o.request, o.postreq, s \cup Keys(u)>>
                     [] u \in {"recover_get", "session_rsa"} -> <<"traffic", o.request, o.postreq>>
                     [] u = "mutate" -> <<"TypeError">>
@@ -31,7 +31,7 @@ Use(u) == /\ Len(hist) < MaxLen
           /\ result' = ResultOf(u, obs, shared)
           /\ shared' = IF SHARED THEN shared \cup Keys(u) ELSE shared
           /\ cached' = cached \cup {ViewOf(u)}
-          /\ obs' = IF ORIGINAL /\ u \in {"decoder_rsa", "decoder_aes", "decoder_rand", "client", "transform_get", "recover_get", "transform_post", "session_rsa"}
+          /\ obs' = IF ORIGINAL /\ u \in {"decoder_rsa", "decoder_aes", "decoder_rand", "client", "client_options", "transform_get", "recover_get", "transform_post", "session_rsa"}
                     THEN [obs EXCEPT !.recover = @ + 1] ELSE obs
 Next == \E u \in Uses : Use(u)
 Spec == Init /\ [][Next]_vars
